@@ -264,7 +264,7 @@ def chain(rng, nlayers, labels, root='map', nulls=True, hostile=0.15, fold=None)
 # documents that use the evaluation directives (C09, C19, C08 seeds)
 
 FEATURES = ['merge-map', 'merge-map-deep', 'merge-str', 'replace-map', 'replace-str', 'merge-list', 'merge-listpath', 'cross-merge', 'cross-replace',
-            'interp', 'env', 'encode', 'encode-value', 'decode', 'repeat-doc', 'repeat-doc-named', 'repeat-list', 'repeat-map', 'output-true',
+            'interp', 'env', 'encode', 'encode-value', 'decode', 'repeat-doc', 'repeat-doc-named', 'repeat-doc-count-ref', 'repeat-list', 'repeat-map', 'output-true',
             'output-false', 'template-doc', 'nested-merge-in-target', 'list-entry-merge-map', 'list-in-list-merge-map', 'merge-host-empty-containers',
             'null-values']
 
@@ -310,6 +310,9 @@ def evaldoc(rng, idx, ndocs, labels, nfeat=None):
         elif f == 'repeat-doc-named' and '$repeat' not in d:
             d['$repeat'] = {'a': 2, 'b': 2}
             d['r'] = '$"{$repeat:a}-{$repeat:b}"'
+        elif f == 'repeat-doc-count-ref' and '$repeat' not in d:
+            d['$repeat'] = {'a': 2, 'b': 1}
+            d['rc'] = '$"of {$repeat.a}x{$repeat.b}"'
         elif f == 'repeat-list':
             d['rl'] = [{'$repeat': 2, 'idx': '$repeat'}, 'tail']
         elif f == 'repeat-map':
